@@ -173,3 +173,23 @@ def replay_input(d):
         bad += res
     sf.set_semantic_constraints('default')
     return not bad, repr(bad[:2])
+
+
+CONSTRAINT_READERS = {'_current_constraints', 'get_bonding_capacity', 'bonding_capacity', 'get_semantic_constraints',
+                      'get_semantic_robust_alphabet', '_PRESET_CONSTRAINTS', 'get_preset_constraints'}
+
+
+def ground(ctx):
+    """Read-frame obligation (static, over the real ast): outside the strict check the encoder never consults the
+    constraint table - no function reachable from encoder() without passing through _check_bond_constraints reads
+    _current_constraints, calls get_bonding_capacity or evaluates Atom.bonding_capacity."""
+    from harness import effects
+    repo = ctx.ld.repo
+    keys = effects.reachable(repo, ['selfies/encoder.py::encoder'], stop={'_check_bond_constraints'})
+    sites = [s for s in effects.reads_of_names(repo, keys, CONSTRAINT_READERS)
+             if not s[0].endswith('::_check_bond_constraints')]
+    # the definitions of the readers themselves are reachable only by name, not by call, unless some site above names them
+    sites = [s for s in sites if s[0].split('::')[1].split('.')[-1] not in ('bonding_capacity', 'get_bonding_capacity')]
+    return [{'name': 'C06:nonstrict-read-frame', 'ok': not sites, 'n': len(keys),
+             'detail': 'functions reachable from encoder() outside the strict check that read constraint state: %r' % (sites[:5],),
+             'input': None}]
